@@ -269,6 +269,7 @@ def proxy_monitor_cases(rp, ctx):
     import radical.pilot.proxy as pmod
     T = pmod._TIMEOUT
     n = 0
+    mops, mimpl = [], []
     for late in (False, True):
         for bystander in (False, True):
             for quiet_passes in (1, 3):
@@ -283,6 +284,9 @@ def proxy_monitor_cases(rp, ctx):
                 script += [[] for _ in range(2)]
                 r = run_proxy_monitor(rp, script)
                 n += 1
+                num = {'A': 1, 'B': 2}
+                mops.append({'op': 'proxy_monitor', 'T': 2 * T, 'script': [[[a[0], num[a[1]] if a[0] != 'skip' else 2 * a[1]] for a in p_] for p_ in script]})
+                mimpl.append({'ended': sorted([[num[e[0]], e[1]] for e in r['ended']]), 'alive': sorted(num[x] for x in r['alive'])})
                 ctx.case({'proxy_monitor': script}, nontrivial=True)
                 inp = {'kind': 'proxy_monitor', 'script': script}
                 ended = {(e[0], e[1]) for e in r['ended']}
@@ -293,6 +297,8 @@ def proxy_monitor_cases(rp, ctx):
                 elif ('A', 2) in ended or ('B', 1) in ended or 'A' not in r['alive']:
                     ctx.fail('proxy:channels-of-a-live-session-ended',
                              'a session that sends its heartbeats lost its channels (every forwarded message is then delivered 0 times): %s' % r, inp)
+    common.compare(ctx, 'bridge', mops, mimpl, canon=lambda x: {'ended': sorted(x['ended']), 'alive': sorted(x['alive'])} if isinstance(x, dict) else x,
+                   what='real Proxy._monitor / _heartbeat over histories of registrations, heartbeats and silence (model Proxy.run): channels ended, sessions alive')
     ctx.obligation('real Proxy._monitor / _heartbeat on a virtual clock: the channels of a session end when its heartbeats stop, a session id '
                    'that registers again and sends heartbeats keeps its channels, as does a bystander (%d histories)' % n, 'tie', True, '')
 
